@@ -157,16 +157,19 @@ def m_number_as_i64(it, name, a):
     raise Unsupported('Number %r' % (n,))
 
 
-@model(exact=('serde_json::Number::as_u64', 'Number::as_u64', 'serde_json::Number::as_f64', 'Number::as_f64', 'serde_json::Number::is_i64', 'serde_json::Number::is_u64'))
+@model(exact=('serde_json::Number::as_u64', 'Number::as_u64', 'serde_json::Number::as_f64', 'Number::as_f64', 'serde_json::Number::is_i64', 'serde_json::Number::is_u64',
+              'Number::is_i64', 'Number::is_u64', 'serde_json::Number::is_f64', 'Number::is_f64'))
 def m_number_misc(it, name, a):
     n = it.deref(a[0])
     op = _meth(name)
     if isinstance(n, Opaque):
         n = n.term
-    if z3.is_expr(n) and z3.is_bv(n) and op in ('as_u64', 'is_u64', 'is_i64'):
+    if z3.is_expr(n) and z3.is_bv(n) and op in ('as_u64', 'is_u64', 'is_i64', 'is_f64'):
         # a symbolic number comes from a serialised signed integer: serde_json stores it as PosInt when >= 0, NegInt otherwise
         if op == 'is_i64':
             return True
+        if op == 'is_f64':
+            return False
         w = n if n.size() == 64 else z3.SignExt(64 - n.size(), n)
         nonneg = it.decide(w >= 0)
         if op == 'is_u64':
@@ -180,11 +183,13 @@ def m_number_misc(it, name, a):
         return some(float(n))
     if op == 'is_i64':
         return isinstance(n, int) and -(1 << 63) <= n < (1 << 63)
+    if op == 'is_f64':
+        return isinstance(n, float)
     return isinstance(n, int) and 0 <= n < (1 << 64)
 
 
 @model(r'serde_json::Value::as_(str|i64|u64|bool|array|object|f64)', r'Value::as_(str|i64|u64|bool|array|object|f64)',
-       r'serde_json::Value::is_(string|number|array|object|null|boolean|i64|u64)', r'Value::is_(string|number|array|object|null|boolean|i64|u64)')
+       r'serde_json::Value::is_(string|number|array|object|null|boolean|i64|u64|f64)', r'Value::is_(string|number|array|object|null|boolean|i64|u64|f64)')
 def m_value_as(it, name, a):
     v = it.deref(a[0])
     op = _meth(name)
@@ -199,7 +204,7 @@ def m_value_as(it, name, a):
             r = innermost_ref(it, a[0])
             return some(Ref(r.cell, r.path + (('f', 0),)))
         return some(v.f[0])
-    if op in ('as_i64', 'as_u64', 'as_f64', 'is_i64', 'is_u64'):
+    if op in ('as_i64', 'as_u64', 'as_f64', 'is_i64', 'is_u64', 'is_f64'):
         if v.variant != 'Number':
             return none() if op.startswith('as_') else False
         return (m_number_as_i64 if op == 'as_i64' else m_number_misc)(it, 'Number::' + op, [v.f[0]])
